@@ -115,11 +115,23 @@ def flatNormals (m : MeshVal (List s)) : Option (MeshVal (List s)) :=
 
 /-! ### Laplacian smoothing (laplacian_smoothing.go:33-63) -/
 
-/-- undirected edges of `VertexNeighborTable` (mesh.go:980-1016); `none` for unsupported topologies -/
+/-- undirected edges of `VertexNeighborTable` (mesh.go:980-1016): triangle = the three sides of every index triple;
+    line strip = consecutive index pairs; line = the pairs (i-1, i) for odd i; line loop = consecutive pairs plus the
+    closing edge (first, last). `none`: point / quad (Go: require-panic) and the EMPTY line loop (Go indexes
+    `m.indices[0]`: a runtime panic — documented observation, the drivers answer `panic` for it). -/
+def pairsOdd : List Nat → List (Nat × Nat)
+  | a :: b :: rest => (a, b) :: pairsOdd rest
+  | _ => []
+
 def edges (m : MeshVal (List s)) : Option (List (Nat × Nat)) :=
   match m.topology with
   | .triangle => some ((triples m.indices).flatMap fun t => [(t.1, t.2.1), (t.2.1, t.2.2), (t.1, t.2.2)])
   | .lineStrip => some (m.indices.zip m.indices.tail)
+  | .line => some (pairsOdd m.indices)
+  | .lineLoop =>
+    match m.indices, m.indices.getLast? with
+    | first :: _, some last => some (m.indices.zip m.indices.tail ++ [(first, last)])
+    | _, _ => none
   | _ => none
 
 def insertSorted (x : Nat) : List Nat → List Nat
